@@ -369,7 +369,15 @@ func (sc *Scope) evalSel(x *ESel) Val {
 		}
 		return Val{T: t, S: c.sortOf(ft), GT: ft}
 	}
-	return Val{T: fmt.Sprintf("(%s %s)", c.selName(stT, idx), base.T), S: c.sortOf(ft), GT: ft}
+	vt := fmt.Sprintf("(%s %s)", c.selName(stT, idx), base.T)
+	switch ft.Underlying().(type) {
+	case *types.Pointer, *types.Map, *types.Chan:
+		if !strings.Contains(vt, "q!") && !strings.Contains(vt, "sp!") && !strings.Contains(vt, "dummy!") {
+			// a pointer held in a struct value points to an allocated object (or is nil)
+			c.defFact(c.allocFact(sc.cur, Val{T: vt, S: SRef, GT: ft}))
+		}
+	}
+	return Val{T: vt, S: c.sortOf(ft), GT: ft}
 }
 
 func (sc *Scope) evalIdx(x *EIdx) Val {
